@@ -36,10 +36,10 @@ def _euler_bcs(rng, rho, u, p, gam):
     return out, inl, "%s-%s(reversed)" % (out["type"], inl["type"])
 
 
-def _uniform_scn(rng, mname=None):
+def _uniform_scn(rng, mname=None, big=0.0):
     mname = mname or str(rng.choice(["convection", "burgers", "shallowwater", "euler1d", "euler1d", "euler1d", "nozzle"]))
     model, mparams = gen.make_model(mname, rng)
-    mesh, mdesc = gen.mesh1d(rng, nmin=1 if rng.random() < 0.1 else 3, nmax=20)
+    mesh, mdesc = gen.mesh1d(rng, nmin=1 if rng.random() < 0.1 else 3, nmax=20, big=big)
     num, rname = gen.any_recon(rng)
     fl = gen.FLUXES[mname]
     flux = fl[int(rng.integers(len(fl)))]
@@ -90,7 +90,7 @@ def _uniform_scn(rng, mname=None):
 
 @group(quick=1500, thorough=60000)
 def rhs1d(ctx, rng, idx):
-    model, mesh, disc, f, desc, fs, qs, cond, kind = _uniform_scn(rng)
+    model, mesh, disc, f, desc, fs, qs, cond, kind = _uniform_scn(rng, big=0.03)
     ctx.describe(**desc)
     r = disc.rhs(f)
     dxmin = float(np.min(mesh.vol()))
